@@ -28,7 +28,8 @@ LEVEL_TEXT = ('All 7 numeric operators x all ordered pairs of 13 numeric '
 LEVEL_NOTE = ('Operands stay below 2^53 (the table says "float"). Malformed '
               'specs (bad brackets, non-list values) are not classified.')
 
-NUMS = ['-1', '0', '1', '1.5', '2', '9', '09', '10', '1e1', '+1', '.5', '-0.5', '100']
+NUMS = ['-1', '0', '1', '1.5', '2', '9', '09', '10', '1e1', '+1', '.5', '-0.5', '100',
+        '999999999', '1000000000', '4294967296', '4294967297', '2.0000000001', '2.0000000002']
 NUM_OPS = {'=': operator.ge, '==': operator.eq, '!=': operator.ne, '<': operator.lt,
            '<=': operator.le, '>': operator.gt, '>=': operator.ge}
 STRS = ['a', 'b', 'ab', 'abc', 'B', '10', '9', '2.1.0', 'x-y', 'a,b', 'gcc', 'z_z']
